@@ -18,6 +18,8 @@ type Explorer struct {
 	Bound    int
 	Deadline time.Time
 	MaxStates int64
+	// Alt restricts which non-default events are explored as deviations (nil = all enabled events).
+	Alt func(label string) bool
 	// OnState is called once for every new canonical state (with the live world; read only).
 	OnState func(w *World, path []string)
 	// OnViolation receives every monitor finding together with the event path that produced it.
@@ -131,7 +133,7 @@ func (e *Explorer) dfs(path []string, w *World, remaining int) {
 	for i, ev := range evs {
 		rem := remaining
 		if e.Bound >= 0 && ev != def {
-			if remaining == 0 {
+			if remaining == 0 || (e.Alt != nil && !e.Alt(ev)) {
 				continue
 			}
 			rem = remaining - 1
